@@ -165,6 +165,19 @@ def _cursor_shift(old_cur, new_cur, dx, dy):
     )
 
 
+def _cursor_shift_clip(old, s, dx, dy):
+    """Trimming: the cursor moves with its cell, and is forgotten when that cell is trimmed away (fix: commit
+    9d24e62 -- before it a cursor outside the canvas was kept).  Stated for a cursor that was inside `old`."""
+    oc, nc = old.cursor, s.cursor
+    was_in = either(mk_bool(oc.isnone), both(0 <= oc.val[0], oc.val[0] < old.ncols, 0 <= oc.val[1], oc.val[1] < old.nrows))
+    x, y = oc.val[0] + dx, oc.val[1] + dy
+    inside = both(0 <= x, x < s.ncols, 0 <= y, y < s.nrows)
+    moved = both(neg(mk_bool(nc.isnone)), nc.val[0] == x, nc.val[1] == y)
+    return implies(was_in, either(both(mk_bool(oc.isnone), mk_bool(nc.isnone)),
+                                  both(neg(mk_bool(oc.isnone)), inside, moved),
+                                  both(neg(mk_bool(oc.isnone)), neg(inside), mk_bool(nc.isnone))))
+
+
 def _same(old, s, *names):
     return both(*[eq(s.fields[n], old.fields[n]) if not isinstance(old.fields[n], SOpt) else _cursor_shift(old.fields[n], s.fields[n], 0, 0) for n in names])
 
@@ -215,20 +228,21 @@ class cc_trim:
         else:
             yield "rows", s.nrows == imin(cnt, old.nrows - a.top)
             yield "cnt", cnt >= 0
-        yield "cursor", _cursor_shift(old.cursor, s.cursor, 0, -a.top)
+        yield "cursor", _cursor_shift_clip(old, s, 0, -a.top)
         yield "window", s.top_off == old.top_off + a.top
 
 
 @contract("urwid/canvas.py:CompositeCanvas.trim_end", property=(), assumed=True, notes="canvas protocol (owned by C02)")
 class cc_trim_end:
     self_shape = CCANVAS
-    modifies = ("nrows",)
+    modifies = ("nrows", "cursor")
 
     def requires(s, a):
         return both(a.end > 0, a.end <= s.nrows)
 
     def ensures(old, s, a, result):
         yield "rows", s.nrows == old.nrows - a.end
+        yield "cursor", _cursor_shift_clip(old, s, 0, 0)
 
 
 @contract("urwid/canvas.py:CompositeCanvas.pad_trim_left_right", property=(), assumed=True, notes="canvas protocol: cols += left+right, cursor x += left (owned by C02)")
@@ -243,7 +257,7 @@ class cc_ptlr:
 
     def ensures(old, s, a, result):
         yield "cols", s.ncols == old.ncols + a.left + a.right
-        yield "cursor", _cursor_shift(old.cursor, s.cursor, a.left, 0)
+        yield "cursor", _cursor_shift_clip(old, s, a.left, 0)
         yield "window", s.left_off == old.left_off - a.left
 
 
@@ -257,7 +271,7 @@ class cc_pttb:
 
     def ensures(old, s, a, result):
         yield "rows", s.nrows == old.nrows + a.top + a.bottom
-        yield "cursor", _cursor_shift(old.cursor, s.cursor, 0, a.top)
+        yield "cursor", _cursor_shift_clip(old, s, 0, a.top)
         yield "window", s.top_off == old.top_off - a.top
 
 
